@@ -70,8 +70,12 @@ static void scenario(const vh::Json& sc, vh::Out& out, vh::Rng& rng, const vh::A
             IP p = IP("10.0.0.2", "10.0.0.1") / syn; flow.process_packet(p);
             flow.ack_tracker().use_sack();
         }
+        // through a Flow: in half of the runs the acknowledging endpoint half-closes somewhere in the history (one of its segments carries
+        // FIN, a later one may carry RST-less data-less ACKs as before) - it goes on acknowledging what the peer still sends
+        long fin_at = via_flow && rng.coin() && hist.size() ? (long)rng.below((uint32_t)hist.size()) : -1;
         for (size_t i = 0; i < hist.size(); ++i) {
             TCP tcp = make_ack(isn, hist[i], 4000, 80);
+            if ((long)i == fin_at) tcp.flags(TCP::ACK | TCP::FIN);
             // through the wire once: the SACK option is serialised and parsed back
             EthernetII pkt = EthernetII() / IP("10.0.0.2", "10.0.0.1") / tcp;
             std::vector<uint8_t> bytes = pkt.serialize(); EthernetII parsed(&bytes[0], (uint32_t)bytes.size());
